@@ -741,8 +741,8 @@ def _run_task(task):
 
 def tasks_for(tier, seed):
     rng = random.Random(f"C12-run-{seed}")
-    n_models = 4 if tier == "quick" else 24
-    n_pairs = 260 if tier == "quick" else 6000
+    n_models = 4 if tier == "quick" else 40
+    n_pairs = 260 if tier == "quick" else 20000
     mseeds = [seed * 1000 + k for k in range(n_models)]
     names = sorted(edits())
     tasks = []
